@@ -106,7 +106,38 @@ var c15Operands = []c15Operand{
 	{"error+Formatter", errFmtT{"ef"}, errFmtT{"ef"}, false, false},
 	{"error+SafeMessager", errSM{"sm"}, errSM{"sm"}, true, false},
 	{"errors.New", c15eNew, c15eNew, false, false},
+	// operands of which NOTHING is printed with the verb (no element, no field): no bad-verb report can come from a
+	// leaf, but it is a %w without an error all the same
+	{"[]byte{} (empty)", []byte{}, nil, false, true},
+	{"[]byte(nil)", []byte(nil), nil, false, true},
+	{"reflect.Value{} (invalid)", reflect.Value{}, nil, true, true},
+	{"reflect.Value of an unexported empty slice", reflect.ValueOf(c15Hidden{}).Field(0), nil, true, true},
+	{"reflect.Value of an unexported empty struct", reflect.ValueOf(c15Hidden{}).Field(1), nil, true, true},
+	{"[0]int{}", [0]int{}, nil, false, true},
+	{"struct{}{}", struct{}{}, nil, false, true},
+	// errors whose redaction-specific method panics: the report names the directive as %v prints it
+	{"error whose SafeFormat panics", errPanSF{"sf"}, errPanSF{"sf"}, true, false},
+	{"error whose SafeMessage panics", errPanSM{"sm"}, errPanSM{"sm"}, true, false},
+	{"Safe(error whose SafeFormat panics)", redact.Safe(errPanSF{"sf"}), errPanSF{"sf"}, true, false},
 }
+
+type c15Hidden struct {
+	s []int
+	e struct{}
+}
+
+type errPanSF struct{ s string }
+
+func (e errPanSF) Error() string { return "errPanSF:" + e.s }
+func (e errPanSF) SafeFormat(p redact.SafePrinter, _ rune) {
+	p.SafeString("part")
+	panic("sfboom" + mStart)
+}
+
+type errPanSM struct{ s string }
+
+func (e errPanSM) Error() string       { return "errPanSM:" + e.s }
+func (e errPanSM) SafeMessage() string { panic("smboom") }
 
 const c15BaseOperands = 15
 
